@@ -26,6 +26,7 @@ mod util;
 
 fn main() {
     util::install_quiet_panic_hook();
+    util::start_rss_watchdog();
     let args: Vec<String> = std::env::args().collect();
     if args.len() < 3 {
         eprintln!("usage: bverif <C01..C20> <quick|thorough> | bverif replay <file>");
